@@ -17,6 +17,7 @@ var segAppend = ir.Callee{Pkg: "server/wal", Recv: "ReadWriteSegment", Name: "Ap
 func checkC08(c *chk.Ctx) {
 	h := newH(c)
 	c.Decided = []string{
+		"R08l ack table entries are created only once the leader's own copy is durable (constructor / head advance), never by an ack",
 		"R08k the leader's commit continuation applies the committed entry on every path, so that effects follow offset order without gaps",
 		"R08a LEADER check, offset allocation and WAL append happen in one exclusive critical section of the controller lock",
 		"R08i a request popped from the commit queue is always completed successfully (the commit no longer depends on the caller)",
@@ -45,6 +46,7 @@ func checkC08(c *chk.Ctx) {
 	ruleCommittedContinuationsSucceed(h, "R08i")
 	ruleCommittedEntryAlwaysApplied(h, "R08k")
 	ruleCommitCheckUnderLock(h, "R08j")
+	ruleAckTableWriters(h, "R08l")
 }
 
 // ruleR01cShared re-evaluates the quorum arithmetic under another rule id.
